@@ -152,6 +152,62 @@ def run(chk, tier, seed):
                           dict(event=e, names=[(d, list(n)) for d, n in imgs[e["disc"]][1]]))
         chk.extra["discs"] = len(imgs)
         extract_runs(chk, dfs, cases, scratch, quick, rnd)
+        tmp_leftovers(chk, dfs, scratch, quick)
+
+
+def tmp_leftovers(chk, dfs, scratch, quick):
+    """Files a command leaves in the system's temporary directory are files it created: every command on plain, gzip-compressed and
+    damaged gzip images is run in a private mount namespace with an empty tmpfs on /tmp (and with TMPDIR pointing into it or unset);
+    whatever is in there afterwards was left behind."""
+    import subprocess, gzip
+    probe = subprocess.run(["unshare", "-m", "sh", "-c", "mount -t tmpfs tmpfs /tmp && ls -A /tmp"], stdout=subprocess.PIPE, stderr=subprocess.PIPE)
+    if probe.returncode != 0:
+        chk.extra["tmp_namespace"] = "unavailable: " + probe.stderr.decode("latin1")[:100]
+        return
+    d = discs.build("DFS", [mkdisc.entry("A", length=700, start=20), mkdisc.entry("B", length=10, start=5)], scratch, "tmpl", nsectors=400, salt=12, title=b"TMPL")
+    raw = open(d.path, "rb").read()
+    good = gzip.compress(raw, 6)
+    variants = {"plain.ssd": raw, "good.ssd.gz": good, "cut.ssd.gz": good[: len(good) // 2], "cut-header.ssd.gz": good[:5],
+                "flip.ssd.gz": good[:200] + bytes([good[200] ^ 0x10]) + good[201:], "crc.ssd.gz": good[:-8] + bytes([good[-8] ^ 1]) + good[-7:],
+                "notgz.ssd.gz": raw, "empty.ssd.gz": b""}
+    paths = {k: mkdisc.write(os.path.join(scratch, "tl-" + k), v) for k, v in variants.items()}
+    dest = os.path.join(scratch, "tl-dest")
+    os.makedirs(dest, exist_ok=True)
+    jobs = []
+    for k, p_ in paths.items():
+        for cmd in (["cat"], ["info", "#.*"], ["type", "A"], ["free"], ["dump", "B"], ["sector-map"], ["show-titles"], ["extract-files", dest], ["extract-unused", dest]):
+            for tmpdir in ((None, "/tmp/sub") if not quick or cmd[0] in ("cat", "type") else (None,)):
+                jobs.append((k, p_, cmd, tmpdir))
+
+    def do(ij):
+        i, (k, p_, cmd, tmpdir) = ij
+        listing = os.path.join(scratch, "tl-%d.lst" % i)
+        script = ("mount -t tmpfs tmpfs /tmp || exit 97; mkdir -p /tmp/sub; " + ("export TMPDIR=%s; " % tmpdir if tmpdir else "unset TMPDIR; ") +
+                  '"$@" >/dev/null 2>&1; rc=$?; (cd /tmp && find . -mindepth 1 ! -path ./sub) > %s; exit $rc' % listing)
+        pr = subprocess.run(["unshare", "-m", "sh", "-c", script, "sh", dfs, "--file", p_] + cmd, stdout=subprocess.PIPE, stderr=subprocess.PIPE, timeout=120)
+        left = [x for x in open(listing).read().split("\n") if x] if os.path.exists(listing) else ["(no listing)"]
+        return dict(e="run", extracting=0, created=[["<tmp>", x] for x in left], changed=[], image_same=1, clean=1, rc=pr.returncode, cmd=cmd[:2],
+                    err="", disc=-1, variant=k, tmpdir=tmpdir or "")
+    events = common.pmap(do, list(enumerate(jobs)))
+    if any(e["rc"] == 97 for e in events):
+        raise common.MachineryError("could not mount a private tmpfs")
+    for e in events:
+        chk.case(("tmp", e["variant"], tuple(e["cmd"]), e["tmpdir"]), nontrivial=True)
+    trace = os.path.join(scratch, "tl-trace.ndjson")
+    with open(trace, "w") as f:
+        for e in events:
+            f.write(json.dumps(e) + "\n")
+    ok, tr = common.validate_trace("TraceHostFs", "TraceHostFs.cfg", trace, timeout=1200)
+    chk.add_tlc("TraceHostFs(tmp)", tr)
+    chk.traces += len(events)
+    if not ok or not tr.verdicts:
+        raise common.MachineryError("TraceHostFs did not consume the whole trace:\n" + tr.output[-3000:])
+    for ln in sorted(tr.verdicts[-1]["bad"]):
+        e = events[ln - 1]
+        chk.violation("tmp-leftover:%s" % ("gz-damaged" if e["variant"] not in ("plain.ssd", "good.ssd.gz") else e["variant"]),
+                      "`dfs --file %s %s` (TMPDIR=%s) left %r in the temporary directory (rc=%s)" % (e["variant"], " ".join(e["cmd"]), e["tmpdir"] or "unset",
+                                                                                                [c[1] for c in e["created"]], e["rc"]), dict(event=e))
+    chk.extra["tmp_runs"] = len(events)
 
 
 def extract_runs(chk, dfs, cases, scratch, quick, rnd):
